@@ -7,7 +7,9 @@ cd /verif
 if [ -n "$(git -C /repo status --porcelain)" ]; then echo "/repo not clean"; exit 2; fi
 git -C /repo apply "$P" || { echo "apply failed"; exit 2; }
 trap 'git -C /repo checkout -- .' EXIT
+# evidence of these runs goes to a scratch directory, never to /verif/evidence
+TV=$(mktemp -d); cp /verif/known_findings.json "$TV/"; trap 'git -C /repo checkout -- .; rm -rf "$TV"' EXIT
 for c in "$@"; do
-  out=$(./run check $c --tier ${TIER:-quick} 2>&1); rc=$?
+  out=$(./run check $c --tier ${TIER:-quick} --verif "$TV" 2>&1); rc=$?
   if [ $rc = 0 ]; then echo "$c MISSED"; else echo "$c DETECTED rc=$rc"; echo "$out" | grep -v '^VIOLATION\|^\[' | head -${LINES_SHOWN:-4}; fi
 done
